@@ -364,11 +364,194 @@ func shape(o *Obligation) {
 	for _, ax := range o.Axioms {
 		insts = append(insts, instantiateAt(ax, sks, 0)...)
 	}
+	// pattern-driven rounds: a definitional fact "forall i :: ... (select A i) ..." about a built array A (append,
+	// copy) is instantiated wherever (select A t) occurs among the goal, the hypotheses and the instances so far;
+	// the instances read their sources at derived indices, so this is repeated a few times
+	var pats []*Term
+	for _, h := range o.Hyps {
+		pats = append(pats, patternForalls(h)...)
+	}
+	if len(pats) > 0 {
+		defByName := map[string]*Def{}
+		for _, d := range o.Defs {
+			defByName[d.Name] = d
+		}
+		done := map[string]bool{}
+		var patInsts []*Term
+		pool := append([]*Term{goal}, prem...)
+		pool = append(pool, o.Hyps...)
+		pool = append(pool, insts...)
+		total := 0
+		for round := 0; round < 3 && total < 300; round++ {
+			occ := map[string][]*Term{} // array term -> index terms
+			seenOcc := map[string]bool{}
+			var walk func(t *Term)
+			walk = func(t *Term) {
+				if t == nil || t.Op == "forall" || t.Op == "exists" {
+					return
+				}
+				if t.Op == "select" && len(t.Args) == 2 {
+					// (select (select M b) t) where M is a store at b: the row is the stored array
+					k := resolveRow(t.Args[0], defByName).String()
+					if !seenOcc[t.String()] {
+						seenOcc[t.String()] = true
+						occ[k] = append(occ[k], t.Args[1])
+					}
+				}
+				for _, a := range t.Args {
+					walk(a)
+				}
+			}
+			for _, t := range pool {
+				walk(t)
+			}
+			var fresh []*Term
+			for _, q := range pats {
+				body := q
+				var guards []*Term
+				for body.Op == "=>" {
+					guards = append(guards, body.Args[0])
+					body = body.Args[1]
+				}
+				pat := body.Pats[0][0]
+				for _, t := range occ[pat.Args[0].String()] {
+					key := q.String() + "@" + t.String()
+					if done[key] || total >= 300 {
+						continue
+					}
+					done[key] = true
+					inst := subst(body.Args[0], map[string]*Term{body.Bound[0].Name: t})
+					for i := len(guards) - 1; i >= 0; i-- {
+						inst = Implies(guards[i], inst)
+					}
+					fresh = append(fresh, inst)
+					total++
+				}
+			}
+			if len(fresh) == 0 {
+				break
+			}
+			insts = append(insts, fresh...)
+			patInsts = append(patInsts, fresh...)
+			pool = fresh
+		}
+		// the other quantified hypotheses (sortedness of the source slices, callee postconditions) are needed at the
+		// source indices the built arrays were read at
+		var newIdx []*Term
+		for _, x := range elementIndexTerms(patInsts, 600) {
+			if hasSkolem(x) && !seenSk[x.String()] && len(newIdx) < 40 {
+				seenSk[x.String()] = true
+				newIdx = append(newIdx, x)
+			}
+		}
+		// the hypotheses speak of indices relative to a slice: an absolute index (off + c) whose relative part c is
+		// a candidate too adds nothing
+		{
+			isCand := map[string]bool{}
+			for _, x := range newIdx {
+				isCand[x.String()] = true
+			}
+			var keep []*Term
+			for _, x := range newIdx {
+				if (x.Op == "+" || x.Op == "bvadd") && len(x.Args) == 2 && isCand[x.Args[1].String()] {
+					a0 := x.Args[0]
+					isOff := func(t *Term) bool {
+						return (t.Op == "var" || t.Op == "app") && (strings.Contains(t.Name, ".off") || strings.HasPrefix(t.Name, "appoff"))
+					}
+					if isOff(a0) {
+						continue // off + c
+					}
+					if (a0.Op == "+" || a0.Op == "bvadd") && len(a0.Args) == 2 && isOff(a0.Args[0]) {
+						continue // (off + L) + c: the relative index L + c is a candidate of its own
+					}
+				}
+				keep = append(keep, x)
+			}
+			newIdx = keep
+		}
+		if os.Getenv("GOCV_DEEPINST") != "" && o.DeepInst {
+			fmt.Fprintf(os.Stderr, "deepinst %s: %d pattern instances, new index terms:\n", o.Name, len(patInsts))
+			for _, x := range newIdx {
+				fmt.Fprintf(os.Stderr, "   %s\n", x)
+			}
+		}
+		if len(newIdx) > 0 && o.DeepInst {
+			cands := append([]*Term{}, newIdx...)
+			if len(newIdx) > 0 && newIdx[0].Sort == SInt {
+				cands = append(cands, IntC(0)) // first elements are what range assumptions are stated over
+			}
+			for _, sk := range sks {
+				if sk.Op == "var" && strings.HasPrefix(sk.Name, "sk!") {
+					cands = append(cands, sk)
+				}
+			}
+			have := map[string]bool{}
+			for _, x := range insts {
+				have[x.String()] = true
+			}
+			n3 := 0
+			for _, h := range o.Hyps {
+				if len(patternForalls(h)) > 0 {
+					continue
+				}
+				for _, x := range instantiateAtCap(h, cands, 1, 400) {
+					if k := x.String(); !have[k] && n3 < 1500 {
+						have[k] = true
+						insts = append(insts, x)
+						n3++
+					}
+				}
+			}
+		}
+	}
 	o.Hyps = append(hyps, insts...)
+}
+
+// patternForalls: the (possibly guarded) universally quantified facts inside h that have one bound variable i and
+// the single pattern (select A i) with A a ground term.
+func patternForalls(h *Term) []*Term {
+	switch h.Op {
+	case "and":
+		var out []*Term
+		for _, a := range h.Args {
+			out = append(out, patternForalls(a)...)
+		}
+		return out
+	case "=>":
+		var out []*Term
+		for _, x := range patternForalls(h.Args[1]) {
+			out = append(out, Implies(h.Args[0], x))
+		}
+		return out
+	case "forall":
+		if len(h.Bound) == 1 && len(h.Pats) == 1 && len(h.Pats[0]) == 1 {
+			p := h.Pats[0][0]
+			if p.Op == "select" && len(p.Args) == 2 && p.Args[1].Op == "var" && p.Args[1].Name == h.Bound[0].Name && !mentionsVar(p.Args[0], h.Bound[0].Name) {
+				return []*Term{h}
+			}
+		}
+	}
+	return nil
+}
+
+func mentionsVar(t *Term, name string) bool {
+	if t.Op == "var" && t.Name == name {
+		return true
+	}
+	for _, a := range t.Args {
+		if mentionsVar(a, name) {
+			return true
+		}
+	}
+	return false
 }
 
 // instantiateAt returns instances of (possibly guarded) universally quantified h at skolems of matching sorts.
 func instantiateAt(h *Term, sks []*Term, depth int) []*Term {
+	return instantiateAtCap(h, sks, depth, 64)
+}
+
+func instantiateAtCap(h *Term, sks []*Term, depth int, limit int) []*Term {
 	if depth > 2 {
 		return nil
 	}
@@ -376,16 +559,20 @@ func instantiateAt(h *Term, sks []*Term, depth int) []*Term {
 	case "and":
 		var out []*Term
 		for _, a := range h.Args {
-			out = append(out, instantiateAt(a, sks, depth)...)
+			out = append(out, instantiateAtCap(a, sks, depth, limit)...)
 		}
 		return out
 	case "=>":
 		var out []*Term
-		for _, x := range instantiateAt(h.Args[1], sks, depth) {
+		for _, x := range instantiateAtCap(h.Args[1], sks, depth, limit) {
 			out = append(out, Implies(h.Args[0], x))
 		}
 		return out
 	case "forall":
+		if len(patternForalls(h)) == 1 && depth == 0 {
+			// definitions of built arrays are instantiated by their pattern (shape), not at every term of the sort
+			return nil
+		}
 		// candidate lists per bound variable
 		cands := make([][]*Term, len(h.Bound))
 		for i, v := range h.Bound {
@@ -401,7 +588,7 @@ func instantiateAt(h *Term, sks []*Term, depth int) []*Term {
 		var out []*Term
 		var rec func(i int, m map[string]*Term)
 		rec = func(i int, m map[string]*Term) {
-			if len(out) > 64 {
+			if len(out) > limit {
 				return
 			}
 			if i == len(h.Bound) {
@@ -411,7 +598,7 @@ func instantiateAt(h *Term, sks []*Term, depth int) []*Term {
 				}
 				inst := subst(h.Args[0], mm)
 				out = append(out, inst)
-				out = append(out, instantiateAt(inst, sks, depth+1)...)
+				out = append(out, instantiateAtCap(inst, sks, depth+1, limit)...)
 				return
 			}
 			for _, cd := range cands[i] {
@@ -536,6 +723,24 @@ func discharge(o *Obligation, dir string, axioms []*Term, secs int, thorough boo
 	}
 	shape(o)
 	relevant(o)
+	// one assertion per conjunct: the ground variant drops quantified assertions only
+	{
+		var flat []*Term
+		var split func(t *Term)
+		split = func(t *Term) {
+			if t.Op == "and" {
+				for _, a := range t.Args {
+					split(a)
+				}
+				return
+			}
+			flat = append(flat, t)
+		}
+		for _, t := range o.Hyps {
+			split(t)
+		}
+		o.Hyps = flat
+	}
 	h := sha1.Sum([]byte(o.Name))
 	base := sanitize(o.Name)
 	if len(base) > 120 {
@@ -562,6 +767,26 @@ func discharge(o *Obligation, dir string, axioms []*Term, secs int, thorough boo
 		var wg sync.WaitGroup
 		var mu sync.Mutex
 		cctx, cancel := context.WithCancel(ctx)
+		// the same condition without its quantified hypotheses (those were already instantiated at the index and
+		// skolem terms of the goal): a weaker set of hypotheses, so only "unsat" counts
+		if gf := groundVariant(file); gf != "" && !o.Cover {
+			wg.Add(1)
+			go func() {
+				defer wg.Done()
+				defer os.Remove(gf)
+				r := runSolver(cctx, solvers[0], gf, secs)
+				r.backend += "(ground)"
+				if r.answer != "unsat" {
+					r.answer = "unknown"
+				}
+				mu.Lock()
+				results = append(results, r)
+				if decided(r) {
+					cancel()
+				}
+				mu.Unlock()
+			}()
+		}
 		for _, sp := range solvers {
 			wg.Add(1)
 			go func(sp solverSpec) {
@@ -620,6 +845,39 @@ func discharge(o *Obligation, dir string, axioms []*Term, secs int, thorough boo
 		}
 		o.Model = strings.Join(parts, " ")
 	}
+}
+
+// groundVariant writes a copy of an SMT file without the quantified hypotheses (the goal, the last assertion, is
+// kept as it is). Returns "" when there is nothing to drop.
+func groundVariant(file string) string {
+	data, err := os.ReadFile(file)
+	if err != nil {
+		return ""
+	}
+	lines := strings.Split(string(data), "\n")
+	last := -1
+	for i, l := range lines {
+		if strings.HasPrefix(l, "(assert") {
+			last = i
+		}
+	}
+	var out []string
+	dropped := 0
+	for i, l := range lines {
+		if i != last && strings.HasPrefix(l, "(assert") && (strings.Contains(l, "(forall ") || strings.Contains(l, "(exists ")) {
+			dropped++
+			continue
+		}
+		out = append(out, l)
+	}
+	if dropped == 0 {
+		return ""
+	}
+	gf := strings.TrimSuffix(file, ".smt2") + ".ground.smt2"
+	if os.WriteFile(gf, []byte(strings.Join(out, "\n")), 0o644) != nil {
+		return ""
+	}
+	return gf
 }
 
 func sanitize(s string) string {
